@@ -41,6 +41,11 @@ class Stack:
                 return []
             if m == "noping" and direction == "up" and b"APING" in data:
                 return []       # the keep-alive pings get lost (say, dropped by a filter), everything else passes
+            if m == "rferr_all":
+                # the radio link between the home module and the spa is down and the module answers EVERYTHING for the spa side, pings included, with RFERR
+                if direction == "up" and b"<HELLO>" not in data:
+                    stack.rferr_due.append(data)
+                    return []
             if m == "rferr":
                 # the home module answers pings and hellos itself; everything for the spa side is answered with RFERR
                 if direction == "up" and not (b"APING" in data or b"<HELLO>" in data):
